@@ -40,7 +40,7 @@ func c19GenFile(r *Rng, idx int) c19File {
 	var tables []string // global tables that can get members
 	var ltables []string
 	for i := 0; i < nStat; i++ {
-		switch r.Intn(14) {
+		switch r.Intn(16) {
 		case 0:
 			v := nm("Loc")
 			sb.WriteString(fmt.Sprintf("local %s = %d\n", v, i))
@@ -109,6 +109,22 @@ func c19GenFile(r *Rng, idx int) c19File {
 			v, g := nm("inner"), nm("InnerGlob")
 			sb.WriteString(fmt.Sprintf("do\n  local %s = 1\n  %s = %s\nend\n", v, g, v))
 			wants = append(wants, want{g, "global-assigned-in-block", true})
+		case 14, 15:
+			// a function two or three scope levels below the chunk, inside blocks that are followed by other blocks
+			v := nm("DeepFn")
+			form := fmt.Sprintf("local function %s(q)\n      return q\n    end\n    print(%s)", v, v)
+			if r.Bool() {
+				form = fmt.Sprintf("local %s = function(q)\n      return q\n    end\n    print(%s)", v, v)
+			}
+			switch r.Intn(3) {
+			case 0:
+				sb.WriteString(fmt.Sprintf("if true then\n  for i%d = 1, 2 do\n    %s\n  end\nend\n", i, form))
+			case 1:
+				sb.WriteString(fmt.Sprintf("do\n  while false do\n    %s\n  end\nend\n", form))
+			default:
+				sb.WriteString(fmt.Sprintf("local function %s(a)\n  if a then\n    %s\n  end\nend\nprint(%s)\n", nm("outerFn"), form, fmt.Sprintf("%souterFn%d", pre, n)))
+			}
+			wants = append(wants, want{v, "local-function-nested-in-blocks", true})
 		case 13:
 			cl := nm("Cls")
 			sb.WriteString(fmt.Sprintf("---@class %s\n---@field fld%d number\nlocal %s = {}\n", cl, i, cl))
@@ -150,7 +166,7 @@ func rangeContains(outer, inner Range) bool {
 }
 
 func runC19(c *Ctx) {
-	nWS := c.N(800, 12000)
+	nWS := c.N(500, 12000)
 	root := NewRng(c.Seed).Fork(19)
 	parallel(nWS, 14, func(wi int) {
 		r := root.Fork(uint64(wi))
@@ -249,6 +265,12 @@ func runC19(c *Ctx) {
 					if s.name == d.Name && rangeContains(s.rg, want) {
 						found = true
 					}
+				}
+				if d.Kind == "local-function-nested-in-blocks" {
+					// the outline lists the declarations of the chunk itself (and table members); functions local to inner
+					// blocks are reached through workspace/symbol only - not asserted for the outline
+					c.Count("dont_care_outline_of_block_local_function", 1)
+					found = true
 				}
 				if !found {
 					why := "absent"
